@@ -97,6 +97,9 @@ func writeEvidence(out *RunOutput, known []*KnownFinding, seed int) int {
 			hs["replay_mismatch"] = h.ReplayBad
 			fmt.Printf("INCONCLUSIVE property=%s harness=%s encoder-mismatch: %s\n", prop, h.Name, h.ReplayBad[0])
 		}
+		if len(h.Retried) > 0 {
+			hs["retried_paths"] = h.Retried
+		}
 		if len(h.Errors) > 0 {
 			hs["engine_errors"] = h.Errors
 			fmt.Printf("INCONCLUSIVE property=%s harness=%s engine-error: %s\n", prop, h.Name, firstLine(h.Errors[0]))
